@@ -254,21 +254,27 @@ def verify_trace_identifier(run, tier):
 
     def thunk(ctx):
         cls = sess.module(MOD).ns['OsLogEvent']
-        w = z3.Int('ti')
-        ctx.declare_range(w, 0, (1 << 64) - 1)
+        # the 64-bit word, declared bit by bit: every shift / mask / div / mod by a power of two is then a linear
+        # term over the bits (libops.divmod_const), whatever way the code under proof slices the word
+        bits = [z3.Int('ti.b%d' % i) for i in range(64)]
+        for bt in bits:
+            ctx.declare_range(bt, 0, 1)
+        w = z3.Sum([bits[i] * (1 << i) for i in range(64)])
+        ctx.facts.append(z3.Int('ti') == w)
+        fld = lambda lo, n: z3.Sum([bits[lo + i] * (1 << i) for i in range(n)])
         res = it.call(it.lib.getattr_(it, cls, 'parse_trace_identifier'), [SInt(w)], {})
         f = res.fields
-        ns, ty, code = w % 256, (w / 256) % 256, w / (1 << 32)
+        ns, ty, code = fld(0, 8), fld(8, 8), fld(32, 32)
         val = lambda v: (v.t if isinstance(v, SEnum) else z3.IntVal(v.value) if isinstance(v, EnumVal) else zi(v))
         ctx.oblige(prefix + '/namespace', val(f['namespace']) == ns)
         ctx.oblige(prefix + '/type', val(f['type_']) == ty)
         ctx.oblige(prefix + '/code', zi(f['code']) == code)
         b = lambda x: (x.t if isinstance(x, SBool) else z3.BoolVal(bool(x)))
-        ctx.oblige(prefix + '/has_current_aid', b(f['has_current_aid']) == ((w / (1 << 16)) % 2 == 1))
-        ctx.oblige(prefix + '/pc_style', val(f['pc_style']) == (w / (1 << 17)) % 8)
-        ctx.oblige(prefix + '/has_unique_pid', b(f['has_unique_pid']) == ((w / (1 << 20)) % 2 == 1))
-        ctx.oblige(prefix + '/has_large_offset', b(f['has_large_offset']) == ((w / (1 << 21)) % 2 == 1))
-        nsflags = (w / (1 << 24)) % 256
+        ctx.oblige(prefix + '/has_current_aid', b(f['has_current_aid']) == (bits[16] == 1))
+        ctx.oblige(prefix + '/pc_style', val(f['pc_style']) == fld(17, 3))
+        ctx.oblige(prefix + '/has_unique_pid', b(f['has_unique_pid']) == (bits[20] == 1))
+        ctx.oblige(prefix + '/has_large_offset', b(f['has_large_offset']) == (bits[21] == 1))
+        nsflags = fld(24, 8)
         fg = f['flags']
         if fg is None:
             ctx.oblige(prefix + '/flags.only-namespaces-without-flags-omit-them', z3.And(ns != 4, ns != 3))
@@ -345,10 +351,11 @@ def run_check(run, tier):
                     'firehose_tracepoint_id bit layout written from XNU libkern/firehose/firehose_types_private.h']
     run.assumptions += ['every string index a record references is present in the string index; enum-typed values are ones the format defines',
                         'unix_date = datetime.fromtimestamp(sec + usec/10**6, utc): floating point is outside the family (bounded native stand-in)',
-                        'parse_decomposed_segment: verified shape only through parse_decomposed (its body is exercised by the bounded stand-in)']
+                        ]
     verify_main(run, tier)
     verify_trace_identifier(run, tier)
     verify_decomposed(run, tier)
+    verify_segment(run, tier)
     finish(run)
 
 
@@ -378,9 +385,106 @@ def finish(run):
 
 def concretize(model):
     tv = lambda t: z3.is_true(model.eval(t, model_completion=True))
+    if any(str(d).startswith('seg.has.') for d in model.decls()):
+        seg = {}
+        if tv(z3.Bool('seg.has.lp')):
+            seg['lp'] = 0
+        if tv(z3.Bool('seg.has.p')):
+            p = {'w': 1, 'p': 2}
+            for k in ('rs', 'tn', 'ty'):
+                if tv(z3.Bool('seg.has.p.' + k)):
+                    p[k] = 1
+            if tv(z3.Bool('seg.has.p.t')):
+                p['t'] = [0, 1][:max(0, min(2, solve.model_int(model, z3.Int('seg.p.t.len'))))]
+            seg['p'] = p
+        if tv(z3.Bool('seg.has.a')):
+            a = {}
+            for k in ('a', 'p', 'c', 'sc', 'st', 'or'):
+                if tv(z3.Bool('seg.has.a.' + k)):
+                    a[k] = solve.model_int(model, z3.Int('seg.a.' + k)) % 4
+            seg['a'] = a
+        return {'kind': 'log_segment_case', 'segment': seg}
     keys = [k for k in OPTIONAL if tv(z3.Bool('has.' + k))]
     ti = solve.model_int(model, z3.Int('raw.ti'))
     if not keys:
         tiw = solve.model_int(model, z3.Int('ti'))
         return {'kind': 'log_case', 'keys': ['ti'], 'ti': tiw}
     return {'kind': 'log_case', 'keys': keys, 'ti': ti}
+
+
+def verify_segment(run, tier):
+    """parse_decomposed_segment over a segment whose optional keys carry symbolic presence bits"""
+    sess = Session(policy=Policy())
+    it = sess.it
+    fq = MOD + ':OsLogEvent.parse_decomposed_segment'
+    prefix = 'C16/parse_decomposed_segment'
+    I_ = z3.IntSort()
+
+    def thunk(ctx):
+        cls = sess.module(MOD).ns['OsLogEvent']
+        strings = libattr.new_symmap('log_strings', 'atom', origin='log_strings')
+        g = lambda k: z3.Bool('seg.has.' + k)
+        v = lambda k: SInt(z3.Int('seg.' + k))
+        tok = z3.Function('seg.p.t.item', I_, I_)
+        toks = SymList('seg.p.t', z3.Int('seg.p.t.len'), lambda q: SInt(tok(q)), origin='tokens')
+        ctx.facts.append(toks.length >= 0)
+        p = PDict()
+        for k in ('rs', 'tn', 'ty'):
+            p.set_entry(k, g('p.' + k), v('p.' + k))
+        p.set_entry('t', g('p.t'), toks)
+        p.set_entry('w', True, v('p.w'))
+        p.set_entry('p', True, v('p.p'))
+        a = PDict()
+        for k in ('a', 'p', 'c', 'sc', 'st', 'or'):
+            a.set_entry(k, g('a.' + k), v('a.' + k))
+        seg = PDict()
+        seg.set_entry('lp', g('lp'), v('lp'))
+        seg.set_entry('p', g('p'), p)
+        seg.set_entry('a', g('a'), a)
+        res = it.call(it.lib.getattr_(it, cls, 'parse_decomposed_segment'), [seg, strings], {})
+        ok = isinstance(res, PDict)
+        ctx.oblige(prefix + '/returns-a-dict', z3.BoolVal(ok))
+        if not ok:
+            return res
+        sidx = lambda t: atom_str(z3.Select(strings.val, t))
+        T = z3.BoolVal(True)
+        zg = lambda x: T if x is True else x
+
+        def entry(d, k):
+            e = d.d.get(k) if isinstance(d, PDict) else None
+            return (z3.BoolVal(False), None) if e is None else (zg(e[0]), e[1])
+
+        def same(x, y):
+            e = values_equal(it, x, y)
+            return z3.BoolVal(e) if isinstance(e, bool) else e
+        gl, vl = entry(res, 'literal_prefix')
+        ctx.oblige(prefix + '/literal_prefix', z3.And(gl == g('lp'), z3.Implies(g('lp'), same(vl, sidx(z3.Int('seg.lp'))) if vl is not None else z3.BoolVal(False))))
+        gp, ph = entry(res, 'placeholder')
+        ctx.oblige(prefix + '/placeholder.present-iff-key', gp == g('p'))
+        if isinstance(ph, PDict):
+            for rk, fk, through in (('rs', 'raw_string', True), ('tn', 'type_namespace', True), ('ty', 'type', True)):
+                ge, ve = entry(ph, fk)
+                ctx.oblige(prefix + '/placeholder.' + fk, z3.Implies(g('p'), z3.And(ge == g('p.' + rk), z3.Implies(g('p.' + rk),
+                           same(ve, sidx(z3.Int('seg.p.' + rk))) if ve is not None else z3.BoolVal(False)))))
+            for rk, fk in (('w', 'width'), ('p', 'precision')):
+                ge, ve = entry(ph, fk)
+                ctx.oblige(prefix + '/placeholder.' + fk, z3.Implies(g('p'), z3.And(ge, same(ve, SInt(z3.Int('seg.p.' + rk))) if ve is not None else z3.BoolVal(False))))
+            ge, ve = entry(ph, 'tokens')
+            okt = ve is None or (isinstance(ve, SymList) and isinstance(ve.origin, tuple) and ve.origin[0] == 'comp' and ve.origin[1] is toks and ve.origin[4] is None)
+            ctx.oblige(prefix + '/placeholder.tokens', z3.And(z3.Implies(g('p'), ge == z3.And(g('p.t'), toks.length > 0)), z3.BoolVal(bool(okt))))
+        ga, ar = entry(res, 'arg')
+        ctx.oblige(prefix + '/arg.present-iff-key', ga == g('a'))
+        if isinstance(ar, PDict):
+            for rk, fk in (('a', 'availability'), ('p', 'privacy'), ('c', 'category')):
+                ge, ve = entry(ar, fk)
+                ctx.oblige(prefix + '/arg.' + fk, z3.Implies(g('a'), z3.And(ge == g('a.' + rk), z3.Implies(g('a.' + rk),
+                           same(ve, SInt(z3.Int('seg.a.' + rk))) if ve is not None else z3.BoolVal(False)))))
+        return res
+    try:
+        prs = sess.explore(thunk)
+    except Unsupported as ex:
+        run.add(prefix + '/supported', 'unsupported', '', 0, fq, str(ex))
+        run.pending_failures.append((prefix + '/supported', 'unsupported', str(ex), None))
+        return
+    collect(run, tier, prs, fq, prefix)
+    run.extra['paths_segment'] = len(prs)
